@@ -929,25 +929,29 @@ package mq
 
 //@ func (*PubAck).fill
 //@   let pl = (len(p.reason) == 0 ? 0 : 3 + len(p.reason)) + upwidth(p.UserProperties, len(p.UserProperties))
-//@   let rl = 2 + (p.reasonCode == 0 ? 0 : 1) + (pl > 0 ? specVbWidth(uint(pl)) + pl : 0)
+//@   -- MQTT 3.4.2.1: reason code and property length may be omitted only if the reason code is 0 and there are no properties
+//@   let rl = 2 + ((p.reasonCode == 0 && pl == 0) ? 0 : 1) + (pl > 0 ? specVbWidth(uint(pl)) + pl : 0)
 //@   ensures result == i + 1 + specVbWidth(uint(rl)) + rl                                   #C10 #C02
 //@   ensures forall k in 0..specVbWidth(uint(rl)): result <= len(b) ==> b[i+1+k] == specVbByte(uint(rl), k)   #C02
 
 //@ func (*PubRec).fill
 //@   let pl = (len(p.reason) == 0 ? 0 : 3 + len(p.reason)) + upwidth(p.UserProperties, len(p.UserProperties))
-//@   let rl = 2 + (p.reasonCode == 0 ? 0 : 1) + (pl > 0 ? specVbWidth(uint(pl)) + pl : 0)
+//@   -- MQTT 3.4.2.1: reason code and property length may be omitted only if the reason code is 0 and there are no properties
+//@   let rl = 2 + ((p.reasonCode == 0 && pl == 0) ? 0 : 1) + (pl > 0 ? specVbWidth(uint(pl)) + pl : 0)
 //@   ensures result == i + 1 + specVbWidth(uint(rl)) + rl                                   #C10 #C02
 //@   ensures forall k in 0..specVbWidth(uint(rl)): result <= len(b) ==> b[i+1+k] == specVbByte(uint(rl), k)   #C02
 
 //@ func (*PubRel).fill
 //@   let pl = (len(p.reason) == 0 ? 0 : 3 + len(p.reason)) + upwidth(p.UserProperties, len(p.UserProperties))
-//@   let rl = 2 + (p.reasonCode == 0 ? 0 : 1) + (pl > 0 ? specVbWidth(uint(pl)) + pl : 0)
+//@   -- MQTT 3.4.2.1: reason code and property length may be omitted only if the reason code is 0 and there are no properties
+//@   let rl = 2 + ((p.reasonCode == 0 && pl == 0) ? 0 : 1) + (pl > 0 ? specVbWidth(uint(pl)) + pl : 0)
 //@   ensures result == i + 1 + specVbWidth(uint(rl)) + rl                                   #C10 #C02
 //@   ensures forall k in 0..specVbWidth(uint(rl)): result <= len(b) ==> b[i+1+k] == specVbByte(uint(rl), k)   #C02
 
 //@ func (*PubComp).fill
 //@   let pl = (len(p.reason) == 0 ? 0 : 3 + len(p.reason)) + upwidth(p.UserProperties, len(p.UserProperties))
-//@   let rl = 2 + (p.reasonCode == 0 ? 0 : 1) + (pl > 0 ? specVbWidth(uint(pl)) + pl : 0)
+//@   -- MQTT 3.4.2.1: reason code and property length may be omitted only if the reason code is 0 and there are no properties
+//@   let rl = 2 + ((p.reasonCode == 0 && pl == 0) ? 0 : 1) + (pl > 0 ? specVbWidth(uint(pl)) + pl : 0)
 //@   ensures result == i + 1 + specVbWidth(uint(rl)) + rl                                   #C10 #C02
 //@   ensures forall k in 0..specVbWidth(uint(rl)): result <= len(b) ==> b[i+1+k] == specVbByte(uint(rl), k)   #C02
 
